@@ -22,7 +22,7 @@ func init() {
 			"can fail has its error tested on an edge that returns a non-nil error (so a failure at any stage is reported, never skipped); (RELEASE) the goroutine that owns the " +
 			"listener set of a generation closes it on the start-failure edge before it can block, so nothing of a failed generation keeps running; (STOPFN) the stop function handed " +
 			"out signals that goroutine and waits for its close; (VALIDATE, cont.) every value of an enumerated configuration field that Validate lets through is acted on by the start code (decided by following both codes' branches for each value), and Validate tests the configuration itself, not a rewritten local copy; " +
-			"(FRESH) the start code writes no package-level variable and no field of the long-lived server object (no state carried from one generation into the next).",
+			"(FRESH) the start code writes no package-level variable and no field of the long-lived server object (no state carried from one generation into the next). (CLOSEDGUARD/HANDLECLOSE/DELIVER) a handle of the stopped generation no longer competes for the shared socket; (DEDUP) no key is skipped before validation unless it is a true duplicate.",
 		NotDecided: "OS bind behaviour, YAML decoding, whether service goroutines have exited at a given time, which keys then authenticate at run time (C09/C01).",
 	})
 }
